@@ -113,10 +113,10 @@ func c13Boundaries() []c13Bound {
 		a.int(bi(stackitem.MaxSize), nil).op(opcode.NEWBUFFER).int(bi(n), nil).op(opcode.RIGHT).op(opcode.SIZE)
 		add("maxsize-right", a, 1, 20)
 		a = &c13Asm{}
-		a.i(8).op(opcode.NEWBUFFER).op(opcode.DUP).i(int64(4+d)).data([]byte{1, 2, 3, 4, 5, 6}).i(2).i(4).op(opcode.MEMCPY)
+		a.i(8).op(opcode.NEWBUFFER).op(opcode.DUP).i(int64(4 + d)).data([]byte{1, 2, 3, 4, 5, 6}).i(2).i(4).op(opcode.MEMCPY)
 		add("memcpy-edge", a, 1, 20)
 		a = &c13Asm{}
-		a.i(8).op(opcode.NEWBUFFER).op(opcode.DUP).i(0).data([]byte{1, 2, 3, 4, 5, 6}).i(int64(2+d)).i(4).op(opcode.MEMCPY)
+		a.i(8).op(opcode.NEWBUFFER).op(opcode.DUP).i(0).data([]byte{1, 2, 3, 4, 5, 6}).i(int64(2 + d)).i(4).op(opcode.MEMCPY)
 		add("memcpy-edge", a, 1, 20)
 		// HASKEY index bound
 		a = &c13Asm{}
@@ -284,24 +284,24 @@ func c13Boundaries() []c13Bound {
 	// --- an exception thrown inside a catch block that has a finally block: the finally block runs, then the outer handler
 	for _, inner := range []int{0, 1} {
 		a := &c13Asm{}
-		a.op(opcode.TRY, 17, 0)  // 0: outer, catch at 17
-		a.op(opcode.TRY, 7, 11)  // 3: inner, catch at 10, finally at 14
-		a.op(opcode.PUSH1)       // 6
-		a.op(opcode.THROW)       // 7
+		a.op(opcode.TRY, 17, 0)         // 0: outer, catch at 17
+		a.op(opcode.TRY, 7, 11)         // 3: inner, catch at 10, finally at 14
+		a.op(opcode.PUSH1)              // 6
+		a.op(opcode.THROW)              // 7
 		a.op(opcode.NOP).op(opcode.NOP) // 8, 9
-		a.op(opcode.PUSH2)       // 10: catch
+		a.op(opcode.PUSH2)              // 10: catch
 		if inner == 0 {
 			a.op(opcode.THROW) // 11: throw inside catch
 		} else {
 			a.op(opcode.ABORT)
 		}
 		a.op(opcode.NOP).op(opcode.NOP) // 12, 13
-		a.op(opcode.PUSH3)       // 14: finally
-		a.op(opcode.ENDFINALLY)  // 15
-		a.op(opcode.NOP)         // 16
-		a.op(opcode.PUSH4)       // 17: outer catch
-		a.op(opcode.ENDTRY, 2)   // 18
-		a.op(opcode.PUSH5)       // 20
+		a.op(opcode.PUSH3)              // 14: finally
+		a.op(opcode.ENDFINALLY)         // 15
+		a.op(opcode.NOP)                // 16
+		a.op(opcode.PUSH4)              // 17: outer catch
+		a.op(opcode.ENDTRY, 2)          // 18
+		a.op(opcode.PUSH5)              // 20
 		add("throw-in-catch", a, 1, 100)
 	}
 	// --- comparisons on equal and adjacent operands
@@ -415,6 +415,14 @@ func c13Boundaries() []c13Bound {
 		}
 		a.op(opcode.PUSH1).op(opcode.PUSH2)
 		add("cycle-cascade", a, 1, 60)
+	}
+	// --- stack indices far beyond the stack (a 31-bit operand): PICK / ROLL / XDROP / REVERSEN must just fault
+	for _, o := range []opcode.Opcode{opcode.PICK, opcode.ROLL, opcode.XDROP, opcode.REVERSEN} {
+		for _, n := range []int64{2, 3, 4, 1 << 20, 1<<31 - 1, 1 << 31} {
+			a := &c13Asm{}
+			a.op(opcode.PUSH1).op(opcode.PUSH2).op(opcode.PUSH3).i(n).op(o).op(opcode.DEPTH)
+			add("huge-index", a, 1, 60)
+		}
 	}
 	// --- gas: exactly at the limit, one unit beyond
 	for _, d := range []int64{-1, 0, 1} {
